@@ -121,3 +121,31 @@ Example c15_end_example :
   exists s, Reach [[OPub [7%Z; 8%Z]; OClose]; [OLoop 3]] s /\ misuse s = false /\
             map ended (threads s) = [false; true] /\ map received (threads s) = [[]; [7%Z; 8%Z]].
 Proof. exact tt_end_example. Qed.
+
+(* ---- store-buffer (TSO) half of "no lost wake-up": the publish/close skeleton on an explicit
+   store-buffer machine (coq/WM).  waker = status store (16-bit, relaxed); [the fence of publish_n /
+   close as regenerated from the source: present iff it is seq_cst]; load of the waiter half.
+   waiter = CAS-set waiter bit while status still INITIAL; futex_wait's kernel-side compare.
+   For EVERY schedule of instruction steps and buffer flushes, no execution parks the consumer while the
+   publisher misses its waiter bit.  Weakening either fence in the source flips the regenerated flag and
+   this theorem fails; the refuted lemma below is the execution that then exists. *)
+Require Import Verif.Base.Atomics Verif.Gen.Gen_topic Verif.WM.TSO Verif.WM.Litmus Verif.WM.LitmusProofs.
+Definition publish_fence_is_seq_cst : bool :=
+  match sites_publish_n with [_; _; _; _; (KFence, o, _)] => is_seq_cst o | _ => false end.
+Definition close_fence_is_seq_cst : bool :=
+  match sites_close with [_; (KFence, o, _)] => is_seq_cst o | _ => false end.
+
+Theorem c15_wake_tso_publish : forall sch,
+  final (run (init [waker publish_fence_is_seq_cst; waiter]) sch) = true ->
+  lost_wakeup (result (run (init [waker publish_fence_is_seq_cst; waiter]) sch)) = false.
+Proof. apply batch_wake_all_executions. vm_compute. reflexivity. Qed.
+Print Assumptions c15_wake_tso_publish.
+
+Theorem c15_wake_tso_close : forall sch,
+  final (run (init [waker close_fence_is_seq_cst; waiter]) sch) = true ->
+  lost_wakeup (result (run (init [waker close_fence_is_seq_cst; waiter]) sch)) = false.
+Proof. apply batch_wake_all_executions. vm_compute. reflexivity. Qed.
+Print Assumptions c15_wake_tso_close.
+
+Theorem c15_wake_tso_without_fence_refuted : batch_wake_safe false = false.
+Proof. exact batch_wake_unfenced_refuted. Qed.
